@@ -127,7 +127,13 @@ class BitCrcRegisterBase(AbstractBitCrcRegister):
         See AbstractCrcRegister.update
         """
         if self._config.reverse_input_bytes:
+            # reverse a private copy, the caller's buffer must stay as it was;
+            # zero-fill to whole bytes first, bytereverse() moves pad bits into the data
+            length = len(bits)
+            bits = bits.copy()
+            bits.fill()
             bits.bytereverse()
+            del bits[length:]
 
         for start_bit in range(0, len(bits), self._config.feed_width_bits):
             self._process_bits(
